@@ -35,7 +35,7 @@ def run(ctx, env):
     _c05.set_id_dispatch_rule(ctx, prog, an, "R10.9", only_data=True)
     ctx.rule("R10.10", "the records a decoder reports are made by that decode alone: every element added to the reported collection derives from the input slice, and the collection itself is created by the call - not the drained / taken content of storage kept in the parser object (a reusable buffer that a failed decode leaves half-filled would surface in a later packet): re-export would emit bytes the message never carried (shared with C02 R2.10)")
     from . import consume as _consume10
-    _consume10.foreign_rule(ctx, prog, an, "R10.10", lambda b: b.path.startswith(("variable_versions::ipfix::", "variable_versions::data_number::")), floor=1)
+    _consume10.foreign_rule(ctx, prog, an, "R10.10", lambda b: b.path.startswith(("variable_versions::ipfix::", "variable_versions::data_number::")), floor=0)
     ctx.rule("R10.7", "no silent consumption in the IPFIX and value decoders: every parser step on a returned remainder chain contributes its decoded value to the result (bytes that are consumed but not stored cannot be re-exported); shared with C02 R2.8")
     from . import consume as _consume
     _consume.rule(ctx, prog, an, "R10.7", lambda b: b.path.startswith(("variable_versions::ipfix::", "variable_versions::data_number::")), floor=12)
